@@ -210,6 +210,7 @@ func runC09(c *Check) {
 	}
 	c.MinInstances("C09-R2", 4)
 	ruleRetrieveHelper(c, p, "C09-R3")
+	ruleHelperSequential(c, p, "C09-R11")
 	ruleNilGuard(c, p)
 	ruleHandOffNotUnderDeadline(c, p, "C09-R9")
 	ruleMetricsPreBound(c, p, "C09-R10", []*ssa.Function{p.MustFunc(mgrM("RetrieveLoop"))}, 6)
@@ -1065,4 +1066,40 @@ func consumerOnlyMark(p *Prog, pred *ssa.Function) (string, bool) {
 	}
 	sort.Strings(names)
 	return "written by " + strings.Join(names, ", ") + ", never called from the retrieval loops", true
+}
+
+// ruleHelperSequential (C09-R11 / C20-R12): the retrieval helper returns the blobs of a height in
+// the order of the listed ids; the based sequencer releases them in that order, and the ids it
+// hands out alongside must line up with them. Chunks fetched by concurrent goroutines that append
+// as they complete land in completion order. The helper (and everything it expands to inside the
+// types package) therefore starts no goroutine: the chunks are fetched one after the other.
+func ruleHelperSequential(c *Check, p *Prog, rule string) {
+	c.Doc(rule, "CS: the DA retrieval helper starts no goroutine (a `go` statement, directly or in a function of its package it calls): the blobs of a height are appended in the order of the listed ids, which concurrent chunk fetches appending on completion do not keep.")
+	fn := p.MustFunc(typesF("RetrieveWithHelpers"))
+	g := BuildECFG(p, fn, ownPkgOpts(rootPath+"/types", 2))
+	c.NoteGraph(g)
+	var gos []string
+	for _, nd := range g.Nodes {
+		if _, ok := nd.In.(*ssa.Go); ok && nd.Kind == NInstr {
+			gos = append(gos, fnShort(nd.Ctx.Fn)+"@"+p.InstrPos(nd.In))
+		}
+	}
+	// closures of the helper are part of it
+	for _, af := range fn.AnonFuncs {
+		for _, b := range af.Blocks {
+			for _, in := range b.Instrs {
+				if _, ok := in.(*ssa.Go); ok {
+					gos = append(gos, fnShort(af)+"@"+p.InstrPos(in))
+				}
+			}
+		}
+	}
+	sort.Strings(gos)
+	inst := "RetrieveWithHelpers ⟂ sequential"
+	if len(gos) == 0 {
+		c.OK(rule, inst, fnName(fn), p.Pos(fn.Pos()), "no goroutine is started while the blobs of a height are collected", true)
+	} else {
+		c.Bad(rule, inst, fnName(fn), p.Pos(fn.Pos()), "the retrieval helper starts goroutines ("+strings.Join(gos, ", ")+"): blobs fetched concurrently are collected in completion order, not in the order of the ids — a height with more blobs than one chunk is released out of DA order and the ids handed out with a batch no longer belong to its transactions", nil)
+	}
+	c.MinInstances(rule, 1)
 }
